@@ -6,7 +6,7 @@ import shutil
 import sys
 import tempfile
 
-from core import Check, run_check, watchdog
+from core import tool, Check, run_check, watchdog
 import gen
 from p_graph import tokenize_gfa
 from p_conv import synth_stable
@@ -43,7 +43,7 @@ class Case:
             u = os.path.join(tmp, "u.gaf")
             gen.write_text(u, "".join(l + "\n" for l in lines))
             o = os.path.join(tmp, "u.out")
-            view.run(u, gfa=self.gfa, output=o, format="stable")
+            tool("view", gaf_path=u, gfa=self.gfa, output=o, format="stable")
             conv = open(o).read().splitlines()
             lines = []
             for k, l in enumerate(conv):
@@ -85,7 +85,7 @@ class Case:
             os.remove(idx)
         try:
             with watchdog(60):
-                index.run(self.gaf, self.gfa)
+                tool("index", gaf_path=self.gaf, gfa_path=self.gfa)
             with open(idx, "rb") as f:
                 return pickle.load(f), None
         except BaseException as e:  # noqa
@@ -96,7 +96,7 @@ class Case:
         out = os.path.join(self.tmp, "v.out")
         try:
             with watchdog(30):
-                view.run(self.gaf, gfa=self.gfa, output=out, nodes=list(nodes), regions=list(regions), format=fmt)
+                tool("view", gaf_path=self.gaf, gfa=self.gfa, output=out, nodes=list(nodes), regions=list(regions), format=fmt)
             return open(out).read().splitlines()
         except CommandLineError:
             return "none"
